@@ -96,6 +96,8 @@ mod imp {
         pub after: Vec<(usize, Outc)>,
         pub writer_panic: Option<PK>,
         pub cancelled: Vec<usize>,
+        /// fixpoint programs: what the members' memos record at the end of the round
+        pub memo_infos: Vec<MemoInfo>,
     }
 
     fn reader_body(db: SimDatabase, reqs: Vec<Req>, writer_round: bool, ti: usize) -> Vec<Outc> {
@@ -246,6 +248,9 @@ mod imp {
                 };
                 log.after.push((*n, o));
             }
+            if case.prog.is_cyclic() && !case.prog.nodes.iter().any(|n| n.kind == Kind::Fb) {
+                log.memo_infos = (case.prog.blk_lo as usize..case.prog.blk_hi as usize).filter_map(|x| memo_info(&db, x)).collect();
+            }
             log.events = db.shared.take_log();
             logs.lock().unwrap_or_else(|e| e.into_inner()).push(log);
         }
@@ -327,6 +332,25 @@ mod imp {
         // (type, value) -> (id, index of the last reader round that interned it)
         let mut last_interned: HashMap<(usize, u32), (u64, usize)> = HashMap::new();
         let mut reader_round = 0usize;
+        // recorded finding #12: from which round on some finalized fixpoint member's memo lacks a
+        // dependency that has been written (see refcyc::incomplete_participants)
+        let mut d12_from: Option<usize> = None;
+        if prog.is_cyclic() {
+            let mut written = BTreeSet::new();
+            for (ri, (round, log)) in conc.rounds.iter().zip(logs.iter()).enumerate() {
+                if let Some(WriterOp::SetIn { i, f, .. }) = &round.writer {
+                    written.insert((*i as usize, *f as usize));
+                }
+                let Some(post) = log.post.as_ref() else { continue };
+                let cr = crate::refcyc::CycRef::solve(prog, post);
+                let hit = logs[..=ri].iter().any(|l| !crate::refcyc::incomplete_participants(&cr, &l.memo_infos, &written).is_empty());
+                if hit {
+                    d12_from = Some(ri);
+                    break;
+                }
+            }
+        }
+        let d12 = |ri: usize| d12_from.is_some_and(|r| ri >= r);
         for (ri, (round, log)) in conc.rounds.iter().zip(logs.iter()).enumerate() {
             if !round.readers.is_empty() {
                 reader_round += 1;
@@ -366,6 +390,7 @@ mod imp {
                                 Some(e) if &e == g => {}
                                 // recorded finding (C14): a function without cycle recovery on a cycle with
                                 // fixpoint functions, entered from several threads, returns a provisional value
+                                Some(e) if d12(ri) => out.viol("cycle_participant_incomplete_deps", ri, format!("round {ri} reader {ti} node {n}: expected {e:?} got {g:?} (a finalized fixpoint member's memo lacks a written dependency)")),
                                 Some(e) if mixed => out.viol("mixed_cycle_cross_thread_value", ri, format!("round {ri} reader {ti} node {n}: expected a cycle panic or {e:?}, got {g:?}")),
                                 Some(e) => out.viol("value_mismatch", ri, format!("round {ri} reader {ti} node {n}: expected {e:?} (revision the reader ran in) got {g:?}")),
                                 None => out.viol("missing_panic", ri, format!("round {ri} reader {ti} node {n}: reference aborts, got {g:?}")),
@@ -402,7 +427,7 @@ mod imp {
                                 PK::Msg(m) if e.is_none() && (m.contains("specify")) => true,
                                 _ => false,
                             };
-                            let internal = matches!(pk, PK::Msg(m) if m.contains("cycle participant with non-empty cycle heads") || m.contains("Can't merge cycle heads") || m.contains("provisional_status.is_provisional()"));
+                            let internal = matches!(pk, PK::Msg(m) if m.contains("cycle participant with non-empty cycle heads") || m.contains("Can't merge cycle heads") || m.contains("provisional_status.is_provisional()") || m.contains("too many cycle iterations"));
                             if !ok && internal && cyc_panic_ok {
                                 out.viol("mixed_cycle_cross_thread_internal_panic", ri, format!("round {ri} reader {ti} node {n}: {pk:?}"));
                             } else if !ok {
@@ -510,13 +535,14 @@ mod imp {
                 match o {
                     Outc::Val(g) => match e {
                         Some(e) if &e == g => out.bump("post_round_values_compared"),
+                        Some(e) if d12(ri) => out.viol("cycle_participant_incomplete_deps", ri, format!("after round {ri} node {n}: expected {e:?} got {g:?} (a finalized fixpoint member's memo lacks a written dependency)")),
                         Some(e) if cyc_ok && conc.rounds[ri].readers.len() > 1 => out.viol("mixed_cycle_cross_thread_value", ri, format!("after round {ri} node {n}: expected {e:?} got {g:?} (memo left by the concurrent round)")),
                         Some(e) => out.viol("value_mismatch_after_round", ri, format!("after round {ri} node {n}: expected {e:?} got {g:?}")),
                         None => {}
                     },
                     Outc::Panic(PK::Msg(m)) if cyc_ok && m.contains("dependency graph cycle") => {}
                     Outc::Panic(PK::Cancelled(c)) if c == "PropagatedPanic" && (cyc_ok || (faulty && prog.is_cyclic())) => out.bump("poisoned_head_observed"),
-                    Outc::Panic(PK::Msg(m)) if cyc_ok && (m.contains("cycle participant with non-empty cycle heads") || m.contains("Can't merge cycle heads") || m.contains("provisional_status.is_provisional()")) => {
+                    Outc::Panic(PK::Msg(m)) if cyc_ok && (m.contains("cycle participant with non-empty cycle heads") || m.contains("Can't merge cycle heads") || m.contains("provisional_status.is_provisional()") || m.contains("too many cycle iterations")) => {
                         out.viol("mixed_cycle_cross_thread_internal_panic", ri, format!("after round {ri} node {n}: {m}"))
                     }
                     Outc::Panic(pk) => out.viol("unexpected_panic_after_round", ri, format!("after round {ri} node {n}: {pk:?}")),
